@@ -31,8 +31,16 @@ func MarshalLengthBytes(l int) []byte {
 
 // GetLengthFromASN returns the length of a slice of ASN1 encoded bytes from the ASN1 length header it contains.
 func GetLengthFromASN(b []byte) int {
+	if len(b) < 2 {
+		// too short to hold a length
+		return 0
+	}
 	if int(b[1]) <= 127 {
 		return int(b[1])
+	}
+	if 2+int(b[1])-128 > len(b) {
+		// the length octets are not all there
+		return 0
 	}
 	// The bytes that indicate the length
 	lb := b[2 : 2+int(b[1])-128]
@@ -47,6 +55,10 @@ func GetLengthFromASN(b []byte) int {
 
 // GetNumberBytesInLengthHeader returns the number of bytes in the ASn1 header that indicate the length.
 func GetNumberBytesInLengthHeader(b []byte) int {
+	if len(b) < 2 {
+		// too short to hold a length
+		return 0
+	}
 	if int(b[1]) <= 127 {
 		return 1
 	}
